@@ -88,6 +88,8 @@ def layout(arch="x86", e_lfanew=0x80, data_len=0):
         "timestamp": (fh + 4, 4),
         "opt_size": (fh + 16, 2),
         "size_of_headers": (opt + 60, 4),
+        "num_rva_and_sizes": (dd0 - 4, 4),
+        "opt_magic": (opt, 2),
         "export_rva": (dd0, 4),
         "export_size": (dd0 + 4, 4),
         "sec0_vsize": (sec0 + 8, 4),
